@@ -497,7 +497,11 @@ class LibMixin:
                         return [(st, self.module_const(mod, name, item))]
                 if not h.cls[0].startswith("liquid"):
                     # instance of a library class (StringIO ...): methods are modelled builtins
+                    if h.cls[1] == "StringIO" and name not in ("write", "getvalue", "read", "seek", "tell", "close", "truncate", "flush", "writelines"):
+                        return [self.raised(st, "AttributeError", f"'_io.StringIO' object has no attribute '{name}'")]
                     return [(st, VBuiltin(f"{h.cls[1]}.{name}", v))]
+                if any(c_[1] == "StringIO" for c_ in load.mro(h.cls[0], h.cls[1])) and self.class_attr(h.cls[0], h.cls[1], name) is None and name not in ("getvalue", "read", "seek", "tell", "close"):
+                    return [self.raised(st, "AttributeError", f"'{h.cls[1]}' object has no attribute '{name}'")]
                 if name in h.field_sorts or h.field_sorts.get("*"):
                     val = _fresh_of_sort(h.field_sorts.get(name, h.field_sorts.get("*")), f"{h.name or h.cls[1]}.{name}")
                     h.fields[name] = val
